@@ -6,7 +6,7 @@ CONSTANTS
   Watched <- Watched2
   Kind = "mem"
   Dev <- DevRest
-  Batches <- TraceBatches
+  Batches <- BatchesT2
   MaxBots = 1
   SendModes <- SendModes2
   D = 0
